@@ -243,6 +243,36 @@ func (*BestChecksums).Checksums
     decreases len(b.ChecksumsSha512) - rangeindex
 
 
+
+// ---------- C12: a checksum entry's verifier accepts exactly the streams with the recorded digest ----------
+
+func (*verifier).Write
+  requires v != nil && v.h != nil
+  ensures n == len(p) && err == nil && v.h.stream == old(v.h.stream) ++ str(p)
+  modifies v.h.stream
+
+// the first Close decides: nil exactly when the digest of everything written, under the verifier's algorithm, is the
+// recorded one (all of it: a recorded hash that is only a prefix of the digest is a mismatch); later Closes return nil
+func (*verifier).Close
+  requires v != nil && v.h != nil
+  ensures !old(v.closed) ==> (result == nil) == (digest(algOf(v.h), v.h.stream) == str(v.want))
+  ensures old(v.closed) ==> result == nil
+  ensures v.closed
+  modifies v.closed
+
+// the verifier hashes with the entry's OWN algorithm and compares with the entry's own recorded hash
+func (*FileHash).Verifier
+  requires c != nil
+  ensures result1 != nil ==> result0 == nil
+  ensures algNum(c.Algorithm) == 0 ==> result1 != nil
+  ensures result1 == nil ==> is(result0, *verifier) && fresh(result0) && as(result0, *verifier).h != nil && algOf(as(result0, *verifier).h) == algNum(c.Algorithm) && algNum(c.Algorithm) != 0
+  ensures result1 == nil ==> as(result0, *verifier).h.stream == "" && str(as(result0, *verifier).want) == unhex(c.Hash) && !as(result0, *verifier).closed
+
+// an entry built from a hasher carries the hasher's algorithm name and byte count
+func FileHashFromHasher
+  requires hasher.hash != nil && hasher.size == len(hasher.hash.stream) && algNum(hasher.name) != 0 && algOf(hasher.hash) == algNum(hasher.name)
+  ensures result.Algorithm == hasher.name && result.Size == hasher.size && result.Filename == path
+
 // ---------- C20: uploads are delivered control file last, confined to the two directories ----------
 
 // the same prefix in front of two different names gives two different paths
@@ -555,5 +585,7 @@ property C09: lemma idxOf_prefix, lemma idxOf_found, (*Paragraph).Set, (*Paragra
 property C10: (*DSC).HasArchAll, (*DSC).Maintainers, (*SourceParagraph).Maintainers, (*DSC).AbsFiles, (*Changes).AbsFiles, (*DSC).DebianSource, (*BinaryIndex).SourcePackage, (*BestChecksums).Checksums, (*FileHash).unmarshalControl, (*MD5FileHash).UnmarshalControl, (*SHA1FileHash).UnmarshalControl, (*SHA256FileHash).UnmarshalControl, (*SHA512FileHash).UnmarshalControl, (*FileListChangesFileHash).UnmarshalControl, layout DSC, layout Changes, layout SourceParagraph, layout BinaryParagraph, layout BinaryIndex, layout SourceIndex, layout BestChecksums
 
 property C20: lemma cat_cancel, (*DSC).Copy, (*DSC).Move, (*DSC).Remove, (*Changes).Copy, (*Changes).Move, (*Changes).Remove
+
+property C12: (*verifier).Write, (*verifier).Close, (*FileHash).Verifier, FileHashFromHasher, (*BestChecksums).Checksums, (*SHA256FileHash).UnmarshalControl, (*SHA512FileHash).UnmarshalControl, (*MD5FileHash).UnmarshalControl, (*SHA1FileHash).UnmarshalControl, (*FileHash).unmarshalControl, layout BestChecksums
 
 @*/
